@@ -318,6 +318,9 @@ class Obs {
         Obs & k( const char * key_, unsigned long v ) {
             return k( key_, ( long long )v );
         }
+        Obs & k( const char * key_, long v ) {
+            return k( key_, ( long long )v );
+        }
         Obs & k( const char * key_, const std::string & v ) {
             key( key_ );
             s += jq( v );
